@@ -146,6 +146,23 @@ def bt_cases(rng):
     return out
 
 
+def run_isolated(H, sub, gocases):
+    """run_harness, but a Go fatal error (stack overflow, out of memory: the whole harness process dies) is attributed to the
+    case that caused it: the batch is re-run case by case and the dying cases get class `fatal` with the runtime's message"""
+    try:
+        return vlib.run_harness(H, sub, gocases)
+    except RuntimeError:
+        out = []
+        for c in gocases:
+            try:
+                out.append(vlib.run_harness(H, sub, [c], timeout=120)[0])
+            except Exception as e:
+                msg = str(e)
+                kind = "stack overflow" if "stack overflow" in msg or "stack exceeds" in msg else "out of memory" if "out of memory" in msg else "fatal"
+                out.append(dict(c="fatal", e="Go fatal error (%s): %s" % (kind, msg[-600:])))
+        return out
+
+
 # ------------------------------------------------------------------------------------------------ tie
 def tie(ctx, viol, cov):
     H, rng = ctx.harness, ctx.rng
@@ -212,7 +229,7 @@ def tie(ctx, viol, cov):
         cases.append((dict(k="btree", file=img.hex(), addr=root, nd=1),
                       "tres_val (fun p => vlistN [fst p]) (bt_collect (assoc %s) 256 %d %s [])" % (graph, lv, c11.cNl(kids)), "btree", 4, len(img)))
 
-    res = vlib.run_harness(H, "c07", [c[0] for c in cases])
+    res = run_isolated(H, "c07", [c[0] for c in cases])
     hist = collections.Counter()
     exprs = []
     alloc_bad = []
@@ -220,8 +237,8 @@ def tie(ctx, viol, cov):
         hist[(kind, r["c"])] += 1
         if r["c"] == "harness":
             raise RuntimeError("c07 harness: %s on %r" % (r.get("e"), {kk: vv for kk, vv in gc.items() if kk != "file"}))
-        if r["c"] == "panic":
-            viol.append(dict(what="%s panics: %s" % (kind, r.get("e")), failing_input={kk: (vv if kk != "file" or len(vv) < 4000 else vv[:4000] + "...") for kk, vv in gc.items()}))
+        if r["c"] in ("panic", "fatal"):
+            viol.append(dict(what="%s: Go %s: %s" % (kind, r["c"], (r.get("e") or "")[:300]), failing_input={kk: (vv if kk != "file" or len(vv) < 4000 else vv[:4000] + "...") for kk, vv in gc.items()}))
             continue
         # per-object bookkeeping (message structs, error values) is allowed 128 bytes per 8 bytes of image on top
         if r.get("alloc", 0) > (k + 2 + 16) * flen + 65536:
